@@ -1,0 +1,21 @@
+//go:build verif
+
+// Contracts for package smartclip, read by the VC generator in /verif (govc). Comments only.
+
+package smartclip
+
+// region codes around the box: the x bits (1,2) and the y bits (4,8) are never both set, so the only
+// codes are 0,1,2,4,5,6,8,9,10 — 3, 7 and 11.. never occur (the -1 slots of the `nexts` tables)
+//@ func bitCodeOpen(b, p)
+//@   pure
+//@   ensures result == 0 || result == 1 || result == 2 || result == 4 || result == 5 || result == 6 || result == 8 || result == 9 || result == 10
+
+// pointFor is total on the eight non-zero region codes and returns a point on the box boundary:
+// on the side(s) named by the code
+//@ func pointFor(b, code)
+//@   pure
+//@   requires code == 1 || code == 2 || code == 4 || code == 5 || code == 6 || code == 8 || code == 9 || code == 10
+//@   ensures code % 2 == 1 ==> same(result[0], b.Min[0])
+//@   ensures (code / 2) % 2 == 1 ==> same(result[0], b.Max[0])
+//@   ensures (code / 4) % 2 == 1 ==> same(result[1], b.Min[1])
+//@   ensures (code / 8) % 2 == 1 ==> same(result[1], b.Max[1])
